@@ -1,22 +1,545 @@
+// c06: drives the execution engine's variable pipeline (operation normalisation with variable
+// processing, variables mapper, variablesvalidation.ValidateWithRemap -- the statements of
+// ExecutionEngine.Execute up to the validator) and the bare VariablesValidator on generated
+// (schema, operation, variables) triples, and prints per case the inputs as S-expressions in the shape
+// of coq/lib/Gql.v / Json.v together with the implementation's observables:
+//
+//	(c06 (schema T..) (vars V..) (json J)
+//	     (direct R)                 bare validator on the raw variables
+//	     (pipe STAGE J' R))         engine pipeline: stage reached, normalised variables, verdict
+//
+// R = (ok) | (err kind "var" "path" "a1" "a2" (msg "...")) with the message classified by its template.
 package main
 
 import (
+	"bufio"
 	"fmt"
 	"os"
+	"regexp"
+	"strconv"
+	"strings"
+
+	"gvh/common"
 
 	"github.com/wundergraph/graphql-go-tools/execution/graphql"
 	"github.com/wundergraph/graphql-go-tools/v2/pkg/astnormalization"
+	"github.com/wundergraph/graphql-go-tools/v2/pkg/astparser"
 	"github.com/wundergraph/graphql-go-tools/v2/pkg/astvalidation"
 	"github.com/wundergraph/graphql-go-tools/v2/pkg/operationreport"
 	"github.com/wundergraph/graphql-go-tools/v2/pkg/variablesvalidation"
 )
 
+// ---------------------------------------------------------------- data structures (the generator's own)
+
+type Ty struct {
+	K    int // 0 named, 1 list, 2 non-null
+	Name string
+	Of   *Ty
+}
+
+func Named(n string) *Ty { return &Ty{K: 0, Name: n} }
+func ListOf(t *Ty) *Ty   { return &Ty{K: 1, Of: t} }
+func NonNull(t *Ty) *Ty {
+	if t.K == 2 {
+		return t
+	}
+	return &Ty{K: 2, Of: t}
+}
+func (t *Ty) String() string {
+	switch t.K {
+	case 0:
+		return t.Name
+	case 1:
+		return "[" + t.Of.String() + "]"
+	}
+	return t.Of.String() + "!"
+}
+func (t *Ty) Sexp() string {
+	switch t.K {
+	case 0:
+		return common.L("n", common.QS(t.Name))
+	case 1:
+		return common.L("l", t.Of.Sexp())
+	}
+	return common.L("nn", t.Of.Sexp())
+}
+func (t *Ty) Base() string {
+	for t.K != 0 {
+		t = t.Of
+	}
+	return t.Name
+}
+func (t *Ty) Strip() *Ty {
+	for t.K == 2 {
+		t = t.Of
+	}
+	return t
+}
+
+// J is a JSON tree that keeps member order and raw number tokens; it also serves as GraphQL literal
+// (Enum marks a string that prints as an enum value in SDL).
+type J struct {
+	K    int // 0 null 1 bool 2 num 3 str 4 arr 5 obj
+	B    bool
+	S    string // raw number token / string content
+	A    []*J
+	O    []Member
+	Enum bool
+}
+type Member struct {
+	K string
+	V *J
+}
+
+func jNull() *J           { return &J{K: 0} }
+func jBool(b bool) *J     { return &J{K: 1, B: b} }
+func jNum(s string) *J    { return &J{K: 2, S: s} }
+func jStr(s string) *J    { return &J{K: 3, S: s} }
+func jEnum(s string) *J   { return &J{K: 3, S: s, Enum: true} }
+func jArr(a ...*J) *J     { return &J{K: 4, A: a} }
+func jObj(m ...Member) *J { return &J{K: 5, O: m} }
+
+func jsonQuote(s string) string {
+	var sb strings.Builder
+	sb.WriteByte('"')
+	for i := 0; i < len(s); i++ {
+		c := s[i]
+		switch {
+		case c == '"' || c == '\\':
+			sb.WriteByte('\\')
+			sb.WriteByte(c)
+		case c < 0x20:
+			fmt.Fprintf(&sb, "\\u%04x", c)
+		default:
+			sb.WriteByte(c)
+		}
+	}
+	sb.WriteByte('"')
+	return sb.String()
+}
+
+func (j *J) JSON() string {
+	switch j.K {
+	case 0:
+		return "null"
+	case 1:
+		if j.B {
+			return "true"
+		}
+		return "false"
+	case 2:
+		return j.S
+	case 3:
+		return jsonQuote(j.S)
+	case 4:
+		parts := make([]string, len(j.A))
+		for i, x := range j.A {
+			parts[i] = x.JSON()
+		}
+		return "[" + strings.Join(parts, ",") + "]"
+	}
+	parts := make([]string, len(j.O))
+	for i, m := range j.O {
+		parts[i] = jsonQuote(m.K) + ":" + m.V.JSON()
+	}
+	return "{" + strings.Join(parts, ",") + "}"
+}
+
+func (j *J) Sexp() string {
+	switch j.K {
+	case 0:
+		return "(null)"
+	case 1:
+		return common.L("b", common.B(j.B))
+	case 2:
+		return common.L("num", common.QS(j.S))
+	case 3:
+		return common.L("str", common.QS(j.S))
+	case 4:
+		parts := []string{"arr"}
+		for _, x := range j.A {
+			parts = append(parts, x.Sexp())
+		}
+		return common.L(parts...)
+	}
+	parts := []string{"obj"}
+	for _, m := range j.O {
+		parts = append(parts, common.L(common.QS(m.K), m.V.Sexp()))
+	}
+	return common.L(parts...)
+}
+
+// GraphQL literal syntax (defaults in SDL / operation)
+func (j *J) GQL() string {
+	switch j.K {
+	case 3:
+		if j.Enum {
+			return j.S
+		}
+		return jsonQuote(j.S)
+	case 4:
+		parts := make([]string, len(j.A))
+		for i, x := range j.A {
+			parts[i] = x.GQL()
+		}
+		return "[" + strings.Join(parts, ", ") + "]"
+	case 5:
+		parts := make([]string, len(j.O))
+		for i, m := range j.O {
+			parts[i] = m.K + ": " + m.V.GQL()
+		}
+		return "{" + strings.Join(parts, ", ") + "}"
+	}
+	return j.JSON()
+}
+
+// as lib/Gql.v value
+func (j *J) ValueSexp() string {
+	switch j.K {
+	case 0:
+		return "(vnull)"
+	case 1:
+		return common.L("vbool", common.B(j.B))
+	case 2:
+		if strings.ContainsAny(j.S, ".eE") {
+			return common.L("vfloat", common.QS(j.S))
+		}
+		return common.L("vint", common.QS(j.S))
+	case 3:
+		if j.Enum {
+			return common.L("venum", common.QS(j.S))
+		}
+		return common.L("vstr", common.QS(j.S))
+	case 4:
+		parts := []string{"vlist"}
+		for _, x := range j.A {
+			parts = append(parts, x.ValueSexp())
+		}
+		return common.L(parts...)
+	}
+	parts := []string{"vobj"}
+	for _, m := range j.O {
+		parts = append(parts, common.L(common.QS(m.K), m.V.ValueSexp()))
+	}
+	return common.L(parts...)
+}
+
+// minimal JSON reader (order, raw numbers, duplicate keys preserved); input is the engine's output
+type jparser struct {
+	s string
+	i int
+}
+
+func (p *jparser) ws() {
+	for p.i < len(p.s) && (p.s[p.i] == ' ' || p.s[p.i] == '\t' || p.s[p.i] == '\n' || p.s[p.i] == '\r') {
+		p.i++
+	}
+}
+func (p *jparser) str() (string, bool) {
+	if p.i >= len(p.s) || p.s[p.i] != '"' {
+		return "", false
+	}
+	p.i++
+	var sb strings.Builder
+	for p.i < len(p.s) {
+		c := p.s[p.i]
+		if c == '"' {
+			p.i++
+			return sb.String(), true
+		}
+		if c == '\\' && p.i+1 < len(p.s) {
+			n := p.s[p.i+1]
+			switch n {
+			case 'n':
+				sb.WriteByte('\n')
+			case 't':
+				sb.WriteByte('\t')
+			case 'r':
+				sb.WriteByte('\r')
+			case 'b':
+				sb.WriteByte('\b')
+			case 'f':
+				sb.WriteByte('\f')
+			case 'u':
+				if p.i+5 < len(p.s) {
+					v, _ := strconv.ParseUint(p.s[p.i+2:p.i+6], 16, 32)
+					sb.WriteRune(rune(v))
+					p.i += 4
+				}
+			default:
+				sb.WriteByte(n)
+			}
+			p.i += 2
+			continue
+		}
+		sb.WriteByte(c)
+		p.i++
+	}
+	return "", false
+}
+func (p *jparser) val() (*J, bool) {
+	p.ws()
+	if p.i >= len(p.s) {
+		return nil, false
+	}
+	switch c := p.s[p.i]; {
+	case c == '{':
+		p.i++
+		o := jObj()
+		p.ws()
+		if p.i < len(p.s) && p.s[p.i] == '}' {
+			p.i++
+			return o, true
+		}
+		for {
+			p.ws()
+			k, ok := p.str()
+			if !ok {
+				return nil, false
+			}
+			p.ws()
+			if p.i >= len(p.s) || p.s[p.i] != ':' {
+				return nil, false
+			}
+			p.i++
+			v, ok := p.val()
+			if !ok {
+				return nil, false
+			}
+			o.O = append(o.O, Member{k, v})
+			p.ws()
+			if p.i < len(p.s) && p.s[p.i] == ',' {
+				p.i++
+				continue
+			}
+			if p.i < len(p.s) && p.s[p.i] == '}' {
+				p.i++
+				return o, true
+			}
+			return nil, false
+		}
+	case c == '[':
+		p.i++
+		a := jArr()
+		p.ws()
+		if p.i < len(p.s) && p.s[p.i] == ']' {
+			p.i++
+			return a, true
+		}
+		for {
+			v, ok := p.val()
+			if !ok {
+				return nil, false
+			}
+			a.A = append(a.A, v)
+			p.ws()
+			if p.i < len(p.s) && p.s[p.i] == ',' {
+				p.i++
+				continue
+			}
+			if p.i < len(p.s) && p.s[p.i] == ']' {
+				p.i++
+				return a, true
+			}
+			return nil, false
+		}
+	case c == '"':
+		s, ok := p.str()
+		return jStr(s), ok
+	case strings.HasPrefix(p.s[p.i:], "null"):
+		p.i += 4
+		return jNull(), true
+	case strings.HasPrefix(p.s[p.i:], "true"):
+		p.i += 4
+		return jBool(true), true
+	case strings.HasPrefix(p.s[p.i:], "false"):
+		p.i += 5
+		return jBool(false), true
+	default:
+		st := p.i
+		for p.i < len(p.s) && strings.IndexByte("+-0123456789.eE", p.s[p.i]) >= 0 {
+			p.i++
+		}
+		if p.i == st {
+			return nil, false
+		}
+		return jNum(p.s[st:p.i]), true
+	}
+}
+func parseJSON(s string) (*J, bool) {
+	p := &jparser{s: s}
+	v, ok := p.val()
+	if !ok {
+		return nil, false
+	}
+	p.ws()
+	return v, p.i == len(p.s)
+}
+
+type Field struct {
+	Name string
+	T    *Ty
+	Def  *J
+}
+type EnumVal struct {
+	Name         string
+	Inaccessible bool
+}
+type TypeDef struct {
+	Kind   string // scalar enum input
+	Name   string
+	Values []EnumVal
+	Fields []Field
+	OneOf  bool
+}
+type Schema struct {
+	Types []*TypeDef
+}
+type VarDef struct {
+	Name string
+	T    *Ty
+	Def  *J
+}
+
+func (s *Schema) find(n string) *TypeDef {
+	for _, t := range s.Types {
+		if t.Name == n {
+			return t
+		}
+	}
+	return nil
+}
+
+var builtins = []string{"Int", "Float", "String", "Boolean", "ID"}
+
+func isBuiltin(n string) bool {
+	for _, b := range builtins {
+		if b == n {
+			return true
+		}
+	}
+	return false
+}
+
+func (s *Schema) SDL(vars []VarDef) string {
+	var sb strings.Builder
+	for _, t := range s.Types {
+		switch t.Kind {
+		case "scalar":
+			fmt.Fprintf(&sb, "scalar %s\n", t.Name)
+		case "enum":
+			fmt.Fprintf(&sb, "enum %s {", t.Name)
+			for _, v := range t.Values {
+				sb.WriteString(" " + v.Name)
+				if v.Inaccessible {
+					sb.WriteString(" @inaccessible")
+				}
+			}
+			sb.WriteString(" }\n")
+		case "input":
+			fmt.Fprintf(&sb, "input %s", t.Name)
+			if t.OneOf {
+				sb.WriteString(" @oneOf")
+			}
+			sb.WriteString(" {")
+			for _, f := range t.Fields {
+				fmt.Fprintf(&sb, " %s: %s", f.Name, f.T)
+				if f.Def != nil {
+					sb.WriteString(" = " + f.Def.GQL())
+				}
+			}
+			sb.WriteString(" }\n")
+		}
+	}
+	sb.WriteString("type Query {")
+	for i, v := range vars {
+		fmt.Fprintf(&sb, " f%d(a: %s): Int", i, v.T)
+	}
+	if len(vars) == 0 {
+		sb.WriteString(" z: Int")
+	}
+	sb.WriteString(" }\n")
+	return sb.String()
+}
+
+func defSexp(d *J) string {
+	if d == nil {
+		return "(none)"
+	}
+	return common.L("some", d.ValueSexp())
+}
+
+// user types in document order, then the base schema's scalars (appended by the merge)
+func (s *Schema) Sexp() string {
+	parts := []string{"schema"}
+	for _, t := range s.Types {
+		switch t.Kind {
+		case "scalar":
+			parts = append(parts, common.L("scalar", common.QS(t.Name)))
+		case "enum":
+			p := []string{"enum", common.QS(t.Name)}
+			for _, v := range t.Values {
+				p = append(p, common.L(common.QS(v.Name), common.B(v.Inaccessible)))
+			}
+			parts = append(parts, common.L(p...))
+		case "input":
+			p := []string{"input", common.QS(t.Name), common.B(t.OneOf)}
+			for _, f := range t.Fields {
+				p = append(p, common.L(common.QS(f.Name), f.T.Sexp(), defSexp(f.Def)))
+			}
+			parts = append(parts, common.L(p...))
+		}
+	}
+	for _, b := range builtins {
+		parts = append(parts, common.L("scalar", common.QS(b)))
+	}
+	return common.L(parts...)
+}
+
+func operationText(vars []VarDef) string {
+	var sb strings.Builder
+	sb.WriteString("query Q")
+	if len(vars) > 0 {
+		sb.WriteString("(")
+		for i, v := range vars {
+			if i > 0 {
+				sb.WriteString(", ")
+			}
+			fmt.Fprintf(&sb, "$%s: %s", v.Name, v.T)
+			if v.Def != nil {
+				sb.WriteString(" = " + v.Def.GQL())
+			}
+		}
+		sb.WriteString(")")
+	}
+	sb.WriteString(" {")
+	for i, v := range vars {
+		fmt.Fprintf(&sb, " f%d(a: $%s)", i, v.Name)
+	}
+	if len(vars) == 0 {
+		sb.WriteString(" z")
+	}
+	sb.WriteString(" }")
+	return sb.String()
+}
+
+func varsSexp(vars []VarDef) string {
+	parts := []string{"vars"}
+	for _, v := range vars {
+		parts = append(parts, common.L(common.QS(v.Name), v.T.Sexp(), defSexp(v.Def)))
+	}
+	return common.L(parts...)
+}
+
+// ---------------------------------------------------------------- implementation observables
+
 type pipeRes struct {
-	stage string // "" ok
+	stage string // ok vars norm panic other:<stage>
 	msg   string
 	vars  string
 }
 
+// the statements of ExecutionEngine.Execute up to and including variable validation
 func pipeline(schema *graphql.Schema, query, vars string, disable bool) (res pipeRes) {
 	defer func() {
 		if r := recover(); r != nil {
@@ -35,27 +558,27 @@ func pipeline(schema *graphql.Schema, query, vars string, disable bool) (res pip
 			astvalidation.DirectivesAreInValidLocations(),
 			astvalidation.StreamAppliedToListFieldsOnly()))
 	if err != nil {
-		return pipeRes{stage: "norm1", msg: err.Error()}
+		return pipeRes{stage: "other:norm1", msg: err.Error()}
 	} else if !r1.Successful {
-		return pipeRes{stage: "norm1", msg: r1.Errors.Error()}
+		return pipeRes{stage: "other:norm1", msg: r1.Errors.Error()}
 	}
 	if r, err := req.ValidateForSchema(schema); err != nil {
-		return pipeRes{stage: "validate", msg: err.Error()}
+		return pipeRes{stage: "other:validate", msg: err.Error()}
 	} else if !r.Valid {
-		return pipeRes{stage: "validate", msg: r.Errors.Error()}
+		return pipeRes{stage: "other:validate", msg: r.Errors.Error()}
 	}
 	r2, err := req.Normalize(schema, astnormalization.WithExtractVariables())
 	if err != nil {
-		return pipeRes{stage: "norm2", msg: err.Error()}
+		return pipeRes{stage: "norm", msg: err.Error()}
 	} else if !r2.Successful {
-		return pipeRes{stage: "norm2", msg: r2.Errors.Error()}
+		return pipeRes{stage: "norm", msg: r2.Errors.Error()}
 	}
 	var rep operationreport.Report
 	remap := astnormalization.NewVariablesMapper().NormalizeOperation(req.Document(), schema.Document(), &rep)
 	if rep.HasErrors() {
-		return pipeRes{stage: "remap", msg: rep.Error()}
+		return pipeRes{stage: "other:remap", msg: rep.Error()}
 	}
-	out := pipeRes{vars: string(req.Variables)}
+	out := pipeRes{stage: "ok", vars: string(req.Variables)}
 	if len(req.Variables) > 0 && req.Variables[0] == '{' {
 		v := variablesvalidation.NewVariablesValidator(variablesvalidation.VariablesValidatorOptions{DisableExposingVariablesContent: disable})
 		if err := v.ValidateWithRemap(req.Document(), schema.Document(), req.Variables, remap); err != nil {
@@ -66,8 +589,874 @@ func pipeline(schema *graphql.Schema, query, vars string, disable bool) (res pip
 	return out
 }
 
+// the bare validator on the raw variables (no normalisation)
+func direct(schema *graphql.Schema, query, vars string, disable bool) (ok bool, msg string) {
+	defer func() {
+		if r := recover(); r != nil {
+			ok, msg = false, "panic: "+fmt.Sprint(r)
+		}
+	}()
+	op, rep := astparser.ParseGraphqlDocumentString(query)
+	if rep.HasErrors() {
+		return false, "parse: " + rep.Error()
+	}
+	op.Input.Variables = []byte(vars)
+	v := variablesvalidation.NewVariablesValidator(variablesvalidation.VariablesValidatorOptions{DisableExposingVariablesContent: disable})
+	if err := v.Validate(&op, schema.Document(), op.Input.Variables); err != nil {
+		return false, err.Error()
+	}
+	return true, ""
+}
+
+// classification of a message by its template (DisableExposingVariablesContent = true)
+type tmpl struct {
+	kind string
+	re   *regexp.Regexp
+	// group indexes: var, path (0 = none), a1, a2
+	v, p, a1, a2 int
+}
+
+const nm = `([^"]*)`
+
+var templates = []tmpl{
+	{"var_required", regexp.MustCompile(`^Variable "\$` + nm + `" of required type "` + nm + `" was not provided\.$`), 1, 0, 2, 0},
+	{"var_null", regexp.MustCompile(`^Variable "\$` + nm + `" got invalid value null; Expected non-nullable type "` + nm + `" not to be null\.$`), 1, 0, 2, 0},
+	{"not_object", regexp.MustCompile(`^Variable "\$` + nm + `" got invalid value; Expected type "` + nm + `" to be an object\.$`), 1, 0, 2, 0},
+	{"field_required", regexp.MustCompile(`^Variable "\$` + nm + `" got invalid value; Field "` + nm + `" of required type "` + nm + `" was not provided\.$`), 1, 0, 2, 3},
+	{"scalar", regexp.MustCompile(`^Variable "\$` + nm + `" got invalid value(?: at "` + nm + `")?; (String|Int|Float|Boolean|ID) cannot represent (?:a non string|non-integer|non numeric|a non boolean|a non-string and non-integer) value$`), 1, 2, 3, 0},
+	{"want_list", regexp.MustCompile(`^Variable "\$` + nm + `" got invalid value(?: at "` + nm + `")?; Got input type "` + nm + `", want: "\[` + nm + `\]"$`), 1, 2, 3, 4},
+	{"enum_nonstring", regexp.MustCompile(`^Variable "\$` + nm + `" got invalid value(?: at "` + nm + `")?; Enum "` + nm + `" cannot represent non-string value\.$`), 1, 2, 3, 0},
+	{"unknown_field", regexp.MustCompile(`^Variable "\$` + nm + `" got invalid value at "` + nm + `"; Field "` + nm + `" is not defined by type "` + nm + `"\.$`), 1, 2, 3, 4},
+	{"enum_value", regexp.MustCompile(`^Variable "\$` + nm + `" got invalid value(?: at "` + nm + `")?; Value does not exist in "` + nm + `" enum\.$`), 1, 2, 3, 0},
+	{"oneof_count", regexp.MustCompile(`^Variable "\$` + nm + `" got invalid value(?: at "` + nm + `")?; OneOf input object "` + nm + `" must have exactly one field provided, but (\d+) fields were provided\.$`), 1, 2, 3, 4},
+	{"oneof_null", regexp.MustCompile(`^Variable "\$` + nm + `" got invalid value(?: at "` + nm + `")?; OneOf input object "` + nm + `" field "` + nm + `" value must be non-null\.$`), 1, 2, 3, 4},
+}
+
+func classify(msg string) string {
+	for _, t := range templates {
+		m := t.re.FindStringSubmatch(msg)
+		if m == nil {
+			continue
+		}
+		g := func(i int) string {
+			if i == 0 {
+				return ""
+			}
+			return m[i]
+		}
+		if t.kind == "want_list" && g(t.a1) != g(t.a2) {
+			continue
+		}
+		a2 := g(t.a2)
+		if t.kind == "want_list" {
+			a2 = ""
+		}
+		return common.L("err", t.kind, common.QS(g(t.v)), common.QS(g(t.p)), common.QS(g(t.a1)), common.QS(a2), common.L("msg", common.QS(msg)))
+	}
+	return common.L("err", "unclassified", common.QS(""), common.QS(""), common.QS(""), common.QS(""), common.L("msg", common.QS(msg)))
+}
+
+func verdictSexp(ok bool, msg string) string {
+	if ok {
+		return "(ok)"
+	}
+	return classify(msg)
+}
+
+type caseT struct {
+	schema *Schema
+	vars   []VarDef
+	json   *J
+	note   string
+}
+
+// runCase returns the case line, or "" with a reason when the case never reached the variables stage
+func runCase(c *caseT, cache map[string]*graphql.Schema) (string, string) {
+	sdl := c.schema.SDL(c.vars)
+	gs, ok := cache[sdl]
+	if !ok {
+		var err error
+		gs, err = graphql.NewSchemaFromString(sdl)
+		if err != nil {
+			return "", "schema: " + err.Error()
+		}
+		if len(cache) > 64 {
+			for k := range cache {
+				delete(cache, k)
+			}
+		}
+		cache[sdl] = gs
+	}
+	op := operationText(c.vars)
+	vj := c.json.JSON()
+	dok, dmsg := direct(gs, op, vj, true)
+	dok2, _ := direct(gs, op, vj, false)
+	p := pipeline(gs, op, vj, true)
+	p2 := pipeline(gs, op, vj, false)
+	if strings.HasPrefix(p.stage, "other:") {
+		return "", p.stage + ": " + p.msg + " | " + op + " | " + sdl
+	}
+	modes := "same"
+	if dok != dok2 || p.stage != p2.stage || p.vars != p2.vars {
+		modes = "differ"
+	}
+	norm := "(none)"
+	if p.stage == "ok" || p.stage == "vars" {
+		if t, ok := parseJSON(p.vars); ok {
+			norm = t.Sexp()
+		} else {
+			norm = common.L("unparsed", common.QS(p.vars))
+		}
+	}
+	pv := "(ok)"
+	switch p.stage {
+	case "vars":
+		pv = classify(p.msg)
+	case "norm", "panic":
+		pv = common.L("fail", common.QS(p.msg))
+	}
+	line := common.L("c06", c.schema.Sexp(), varsSexp(c.vars), common.L("json", c.json.Sexp()),
+		common.L("direct", verdictSexp(dok, dmsg)),
+		common.L("pipe", p.stage, norm, pv),
+		common.L("modes", modes), common.L("note", common.QS(c.note)))
+	return line, ""
+}
+
+// ---------------------------------------------------------------- generator
+
+type gen struct {
+	r      *common.Rand
+	s      *Schema
+	budget int      // mutations still allowed in the current value
+	muts   []string // mutations applied
+}
+
+var strPool = []string{"abc", "s0", "A", "B", "C", "x y"}
+var reparsePool = []string{"{}", "null", "5", "[]", "true"}
+
+func (g *gen) genSchema() {
+	r := g.r
+	s := &Schema{}
+	g.s = s
+	s.Types = append(s.Types, &TypeDef{Kind: "scalar", Name: "JSON"})
+	withUpload := r.Chance(1, 4)
+	if withUpload {
+		s.Types = append(s.Types, &TypeDef{Kind: "scalar", Name: "Upload"})
+	}
+	nEnum := 1 + r.Pick(2)
+	nIn := r.Pick(5)
+	// interleave enums and inputs in document order
+	var order []string
+	for i := 0; i < nEnum; i++ {
+		order = append(order, fmt.Sprintf("E%d", i))
+	}
+	for i := 0; i < nIn; i++ {
+		order = append(order, fmt.Sprintf("In%d", i))
+	}
+	r.Shuffle(len(order), func(i, j int) { order[i], order[j] = order[j], order[i] })
+	for _, n := range order {
+		if n[0] == 'E' {
+			td := &TypeDef{Kind: "enum", Name: n}
+			td.Values = []EnumVal{{"A", false}, {"B", r.Chance(1, 2)}}
+			if r.Chance(1, 2) {
+				td.Values = append(td.Values, EnumVal{"C", r.Chance(1, 3)})
+			}
+			s.Types = append(s.Types, td)
+		} else {
+			s.Types = append(s.Types, &TypeDef{Kind: "input", Name: n})
+		}
+	}
+	// fields; defaults only reference lower-numbered inputs so that default injection terminates
+	for idx := 0; idx < nIn; idx++ {
+		td := s.find(fmt.Sprintf("In%d", idx))
+		td.OneOf = r.Chance(1, 6)
+		nf := 1 + r.Pick(4)
+		for k := 0; k < nf; k++ {
+			f := Field{Name: string(rune('a' + k))}
+			f.T = g.genType(nIn, idx, td.OneOf, 3)
+			if !td.OneOf && r.Chance(1, 3) {
+				f.Def = g.genDefault(f.T, idx)
+			}
+			td.Fields = append(td.Fields, f)
+		}
+	}
+}
+
+// a type for a field of In<self>; recursion through a non-null, non-list reference is avoided
+func (g *gen) genType(nIn, self int, oneOf bool, depth int) *Ty {
+	r := g.r
+	var base *Ty
+	switch k := r.Pick(12); {
+	case k < 5:
+		base = Named(builtins[r.Pick(len(builtins))])
+	case k == 5:
+		base = Named("JSON")
+	case k == 6 && g.s.find("Upload") != nil:
+		base = Named("Upload")
+	case k < 9:
+		base = Named(fmt.Sprintf("E%d", r.Pick(g.countKind("enum"))))
+	default:
+		if nIn == 0 {
+			base = Named("Int")
+		} else {
+			base = Named(fmt.Sprintf("In%d", r.Pick(nIn)))
+		}
+	}
+	t := base
+	isIn := strings.HasPrefix(base.Name, "In")
+	inner := false
+	if r.Chance(1, 3) && !(isIn && self >= 0) {
+		t = NonNull(t)
+		inner = true
+	}
+	_ = inner
+	lists := 0
+	switch k := r.Pick(10); {
+	case k < 5:
+		lists = 0
+	case k < 8:
+		lists = 1
+	case k < 9:
+		lists = 2
+	default:
+		lists = 3
+	}
+	if lists > depth {
+		lists = depth
+	}
+	for i := 0; i < lists; i++ {
+		t = ListOf(t)
+		if r.Chance(1, 3) && i < lists-1 {
+			t = NonNull(t)
+		}
+	}
+	if !oneOf && r.Chance(1, 3) && !(isIn && lists == 0 && self >= 0) {
+		t = NonNull(t)
+	}
+	return t
+}
+
+func (g *gen) countKind(k string) int {
+	n := 0
+	for _, t := range g.s.Types {
+		if t.Kind == k {
+			n++
+		}
+	}
+	return n
+}
+
+// a literal that is valid for t by construction, with full list nesting; below restricts input object references
+func (g *gen) genDefault(t *Ty, below int) *J {
+	r := g.r
+	switch t.K {
+	case 2:
+		return g.genDefault(t.Of, below)
+	case 1:
+		if r.Chance(1, 8) && t.Of.K != 2 {
+			return jArr(jNull())
+		}
+		n := r.Pick(3)
+		a := jArr()
+		for i := 0; i < n; i++ {
+			x := g.genDefault(t.Of, below)
+			if x == nil {
+				return nil
+			}
+			a.A = append(a.A, x)
+		}
+		return a
+	}
+	switch t.Name {
+	case "Int":
+		return jNum(common.PickOf(r, []string{"0", "1", "42", "-7"}))
+	case "Float":
+		return jNum(common.PickOf(r, []string{"1.5", "2", "0.25"}))
+	case "String":
+		return jStr(common.PickOf(r, []string{"abc", "d"}))
+	case "Boolean":
+		return jBool(r.Chance(1, 2))
+	case "ID":
+		return jStr("id1")
+	case "JSON", "Upload":
+		return jStr("up")
+	}
+	td := g.s.find(t.Name)
+	if td == nil {
+		return nil
+	}
+	if td.Kind == "enum" {
+		for _, v := range td.Values {
+			if !v.Inaccessible {
+				return jEnum(v.Name)
+			}
+		}
+		return nil
+	}
+	// input object: only earlier ones, to keep defaults acyclic
+	var idx int
+	fmt.Sscanf(td.Name, "In%d", &idx)
+	if idx >= below || td.OneOf {
+		return nil
+	}
+	o := jObj()
+	for _, f := range td.Fields {
+		if f.T.K == 2 && f.Def == nil {
+			x := g.genDefault(f.T, idx)
+			if x == nil {
+				return nil
+			}
+			o.O = append(o.O, Member{f.Name, x})
+		} else if r.Chance(1, 3) {
+			x := g.genDefault(f.T, idx)
+			if x != nil {
+				o.O = append(o.O, Member{f.Name, x})
+			}
+		}
+	}
+	return o
+}
+
+func (g *gen) mutate() bool {
+	if g.budget > 0 && g.r.Chance(1, 4) {
+		g.budget--
+		return true
+	}
+	return false
+}
+func (g *gen) note(m string) { g.muts = append(g.muts, m) }
+
+var badInts = []string{"1.5", "1e100", "2147483648", "-2147483649", "9999999999999999999999", "-0.5", "3e2"}
+
+// a value for type t: valid by construction, with mutations applied while the budget lasts.
+// returns nil for "absent" (only meaningful for object fields / variables).
+func (g *gen) genValue(t *Ty, depth int, hasDef bool, canAbsent bool) *J {
+	r := g.r
+	if g.mutate() {
+		switch r.Pick(3) {
+		case 0:
+			g.note("null")
+			return jNull()
+		case 1:
+			if canAbsent {
+				g.note("absent")
+				return nil
+			}
+		}
+		g.budget++ // fall through to the type specific mutations below
+	}
+	if t.K == 2 {
+		return g.genValue(t.Of, depth, false, false)
+	}
+	// nullable position
+	if canAbsent && r.Chance(1, 4) && (t.K != 2) {
+		return nil
+	}
+	if r.Chance(1, 8) {
+		return jNull()
+	}
+	if t.K == 1 {
+		if g.mutate() {
+			switch r.Pick(4) {
+			case 0:
+				g.note("single-for-list")
+				return g.genValue(t.Of, depth, false, false)
+			case 1:
+				g.note("extra-nesting")
+				return jArr(jArr(g.genValue(t.Of, depth, false, false)))
+			case 2:
+				g.note("object-for-list")
+				return jObj(Member{"a", jNum("1")})
+			default:
+				g.note("null-element")
+				x := g.genValue(t.Of, depth, false, false)
+				if x == nil {
+					x = jNull()
+				}
+				if r.Chance(1, 2) {
+					return jArr(jNull(), x)
+				}
+				return jArr(x, jNull())
+			}
+		}
+		n := r.Pick(4)
+		if depth <= 0 {
+			n = 0
+		}
+		a := jArr()
+		for i := 0; i < n; i++ {
+			x := g.genValue(t.Of, depth-1, false, false)
+			if x == nil {
+				x = jNull()
+			}
+			a.A = append(a.A, x)
+		}
+		return a
+	}
+	return g.genNamed(t.Name, depth)
+}
+
+func (g *gen) wrongKind(avoid int) *J {
+	r := g.r
+	for {
+		var x *J
+		switch r.Pick(6) {
+		case 0:
+			x = jNum(common.PickOf(r, []string{"5", "0", "1.5"}))
+		case 1:
+			x = jStr(common.PickOf(r, strPool))
+		case 2:
+			x = jBool(r.Chance(1, 2))
+		case 3:
+			x = jObj()
+			if r.Chance(1, 2) {
+				x.O = append(x.O, Member{"a", jNum("1")})
+			}
+		case 4:
+			x = jArr()
+			if r.Chance(1, 2) {
+				x.A = append(x.A, jNum("1"))
+			}
+		default:
+			x = jStr(common.PickOf(r, reparsePool))
+		}
+		if x.K != avoid {
+			return x
+		}
+	}
+}
+
+func (g *gen) genNamed(name string, depth int) *J {
+	r := g.r
+	switch name {
+	case "Int":
+		if g.mutate() {
+			if r.Chance(2, 3) {
+				g.note("bad-int")
+				return jNum(common.PickOf(r, badInts))
+			}
+			g.note("wrong-kind")
+			return g.wrongKind(2)
+		}
+		return jNum(common.PickOf(r, []string{"0", "1", "-5", "2147483647", "-2147483648", "77"}))
+	case "Float":
+		if g.mutate() {
+			g.note("wrong-kind")
+			return g.wrongKind(2)
+		}
+		return jNum(common.PickOf(r, []string{"0", "1.5", "-2.25", "1e10", "3"}))
+	case "String":
+		if g.mutate() {
+			g.note("wrong-kind")
+			return g.wrongKind(3)
+		}
+		return jStr(common.PickOf(r, strPool))
+	case "Boolean":
+		if g.mutate() {
+			g.note("wrong-kind")
+			return g.wrongKind(1)
+		}
+		return jBool(r.Chance(1, 2))
+	case "ID":
+		if g.mutate() {
+			if r.Chance(1, 2) {
+				g.note("bad-id")
+				return jNum(common.PickOf(r, []string{"1.5", "1e3", "-0.5"}))
+			}
+			g.note("wrong-kind")
+			return g.wrongKind(3)
+		}
+		if r.Chance(1, 2) {
+			return jNum(common.PickOf(r, []string{"7", "123456789012345678901"}))
+		}
+		return jStr("id7")
+	case "JSON", "Upload":
+		return g.wrongKind(-1)
+	}
+	td := g.s.find(name)
+	if td == nil {
+		return jNull()
+	}
+	if td.Kind == "enum" {
+		if g.mutate() {
+			switch r.Pick(3) {
+			case 0:
+				for _, v := range td.Values {
+					if v.Inaccessible {
+						g.note("inaccessible-enum")
+						return jStr(v.Name)
+					}
+				}
+				fallthrough
+			case 1:
+				g.note("unknown-enum")
+				return jStr("ZZ")
+			default:
+				g.note("wrong-kind")
+				return g.wrongKind(3)
+			}
+		}
+		var ok []string
+		for _, v := range td.Values {
+			if !v.Inaccessible {
+				ok = append(ok, v.Name)
+			}
+		}
+		return jStr(common.PickOf(r, ok))
+	}
+	// input object
+	if g.mutate() {
+		g.note("wrong-kind")
+		return g.wrongKind(5)
+	}
+	o := jObj()
+	if td.OneOf {
+		f := td.Fields[r.Pick(len(td.Fields))]
+		v := g.genValue(f.T, depth-1, false, false)
+		if v == nil || v.K == 0 {
+			v = g.genValue(f.T.Strip(), depth-1, false, false)
+		}
+		if v == nil {
+			v = jNull()
+		}
+		o.O = append(o.O, Member{f.Name, v})
+		if g.mutate() {
+			switch r.Pick(3) {
+			case 0:
+				g.note("oneof-two")
+				f2 := td.Fields[r.Pick(len(td.Fields))]
+				if f2.Name != f.Name {
+					v2 := g.genValue(f2.T, depth-1, false, false)
+					if v2 == nil {
+						v2 = jNull()
+					}
+					o.O = append(o.O, Member{f2.Name, v2})
+				} else {
+					o.O = append(o.O, Member{"zz", jNum("1")})
+				}
+			case 1:
+				g.note("oneof-none")
+				o.O = nil
+			default:
+				g.note("oneof-null")
+				o.O[0].V = jNull()
+			}
+		}
+		return o
+	}
+	for _, f := range td.Fields {
+		if depth <= 0 && f.T.K != 2 {
+			continue
+		}
+		canAbsent := f.T.K != 2 || f.Def != nil
+		v := g.genValue(f.T, depth-1, f.Def != nil, canAbsent)
+		if v == nil {
+			continue
+		}
+		o.O = append(o.O, Member{f.Name, v})
+	}
+	if g.mutate() {
+		g.note("unknown-key")
+		k := common.PickOf(r, []string{"zz", "secretKey123", "A", "In0"})
+		pos := r.Pick(len(o.O) + 1)
+		o.O = append(o.O[:pos], append([]Member{{k, jNum("1")}}, o.O[pos:]...)...)
+	}
+	if g.mutate() && len(o.O) > 0 {
+		g.note("drop-field")
+		pos := r.Pick(len(o.O))
+		o.O = append(o.O[:pos], o.O[pos+1:]...)
+	}
+	return o
+}
+
+func depthOf(t *Ty) int {
+	n := 0
+	for t.K != 0 {
+		n++
+		t = t.Of
+	}
+	return n
+}
+
+func (g *gen) genVars() []VarDef {
+	r := g.r
+	nv := 1 + r.Pick(3)
+	var vars []VarDef
+	nIn := g.countKind("input")
+	for i := 0; i < nv; i++ {
+		t := g.genType(nIn, -1, false, 3)
+		v := VarDef{Name: string(rune('x' + i)), T: t}
+		if r.Chance(1, 3) {
+			if t.K == 1 && r.Chance(1, 4) {
+				v.Def = jNull()
+			} else {
+				v.Def = g.genDefault(t, nIn)
+			}
+		}
+		vars = append(vars, v)
+	}
+	return vars
+}
+
+func (g *gen) genJSON(vars []VarDef) *J {
+	r := g.r
+	g.muts = nil
+	switch k := r.Pick(20); {
+	case k < 5:
+		g.budget = 0
+	case k < 14:
+		g.budget = 1
+	case k < 18:
+		g.budget = 2
+	default:
+		g.budget = 3
+	}
+	o := jObj()
+	for _, v := range vars {
+		canAbsent := v.T.K != 2 || v.Def != nil
+		x := g.genValue(v.T, 4, v.Def != nil, canAbsent)
+		if x == nil {
+			continue
+		}
+		o.O = append(o.O, Member{v.Name, x})
+	}
+	if r.Chance(1, 30) {
+		o.O = append(o.O, Member{"unused", jNum("1")})
+	}
+	return o
+}
+
+// the malformed stream: values unrelated to the declared type
+func (g *gen) randomJSON(depth int) *J {
+	r := g.r
+	switch k := r.Pick(9); {
+	case k == 0:
+		return jNull()
+	case k == 1:
+		return jBool(r.Chance(1, 2))
+	case k == 2:
+		return jNum(common.PickOf(r, append([]string{"0", "7"}, badInts...)))
+	case k == 3:
+		return jStr(common.PickOf(r, append(strPool, reparsePool...)))
+	case k < 6 && depth > 0:
+		a := jArr()
+		for i := r.Pick(3); i > 0; i-- {
+			a.A = append(a.A, g.randomJSON(depth-1))
+		}
+		return a
+	case depth > 0:
+		o := jObj()
+		used := map[string]bool{}
+		for i := r.Pick(4); i > 0; i-- {
+			k := common.PickOf(r, []string{"a", "b", "c", "d", "zz"})
+			if used[k] {
+				continue
+			}
+			used[k] = true
+			o.O = append(o.O, Member{k, g.randomJSON(depth - 1)})
+		}
+		return o
+	}
+	return jNum("1")
+}
+
+func genAll(seed uint64, n int, out *common.Out) {
+	r := common.NewRand(seed)
+	g := &gen{r: r}
+	cache := map[string]*graphql.Schema{}
+	emitted, skipped := 0, 0
+	var skipReasons []string
+	for emitted < n {
+		g.genSchema()
+		for k := 0; k < 4 && emitted < n; k++ {
+			vars := g.genVars()
+			for m := 0; m < 4 && emitted < n; m++ {
+				var j *J
+				note := ""
+				if r.Chance(1, 12) {
+					j = jObj()
+					for _, v := range vars {
+						if r.Chance(3, 4) {
+							j.O = append(j.O, Member{v.Name, g.randomJSON(3)})
+						}
+					}
+					note = "malformed"
+				} else {
+					j = g.genJSON(vars)
+					note = strings.Join(g.muts, "+")
+				}
+				line, why := runCase(&caseT{schema: g.s, vars: vars, json: j, note: note}, cache)
+				if line == "" {
+					skipped++
+					if len(skipReasons) < 5 {
+						skipReasons = append(skipReasons, why)
+					}
+					if skipped > n/2+50 {
+						fmt.Fprintln(os.Stderr, "too many skipped cases:", skipReasons)
+						os.Exit(3)
+					}
+					break
+				}
+				out.Line(line)
+				emitted++
+			}
+		}
+	}
+	fmt.Fprintf(os.Stderr, "emitted=%d skipped=%d\n", emitted, skipped)
+	for _, s := range skipReasons {
+		fmt.Fprintln(os.Stderr, "skip:", s)
+	}
+}
+
+// ---------------------------------------------------------------- corpus: SDL-free textual cases
+// corpus line:  <types> ;; <vars> ;; <json>
+//   types: space separated  scalar:Name | enum:Name:A,B!,C  (! = inaccessible) | input:Name[@oneOf]:f=Type[=default-json],...
+//   vars:  x=Type[=default-json] ...
+// default-json is JSON where a bare word stands for an enum value.
+
+func parseTy(s string) *Ty {
+	s = strings.TrimSpace(s)
+	if strings.HasSuffix(s, "!") {
+		return NonNull(parseTy(s[:len(s)-1]))
+	}
+	if strings.HasPrefix(s, "[") && strings.HasSuffix(s, "]") {
+		return ListOf(parseTy(s[1 : len(s)-1]))
+	}
+	return Named(s)
+}
+
+func parseDefault(s string) *J {
+	if j, ok := parseJSON(s); ok {
+		return j
+	}
+	return jEnum(s)
+}
+
+// split on sep at bracket depth 0
+func splitTop(s string, sep byte) []string {
+	var out []string
+	depth, st := 0, 0
+	inStr := false
+	for i := 0; i < len(s); i++ {
+		c := s[i]
+		if inStr {
+			if c == '\\' {
+				i++
+			} else if c == '"' {
+				inStr = false
+			}
+			continue
+		}
+		switch c {
+		case '"':
+			inStr = true
+		case '[', '{':
+			depth++
+		case ']', '}':
+			depth--
+		default:
+			if c == sep && depth == 0 {
+				out = append(out, s[st:i])
+				st = i + 1
+			}
+		}
+	}
+	return append(out, s[st:])
+}
+
+func parseFieldSpec(s string) (string, *Ty, *J) {
+	eq := strings.IndexByte(s, '=')
+	name := s[:eq]
+	rest := s[eq+1:]
+	parts := splitTop(rest, '=')
+	t := parseTy(parts[0])
+	var d *J
+	if len(parts) > 1 {
+		d = parseDefault(strings.Join(parts[1:], "="))
+	}
+	return name, t, d
+}
+
+func parseCorpusLine(line string) (*caseT, error) {
+	secs := strings.Split(line, ";;")
+	if len(secs) != 3 {
+		return nil, fmt.Errorf("want 3 sections")
+	}
+	s := &Schema{}
+	for _, tok := range strings.Fields(secs[0]) {
+		p := strings.SplitN(tok, ":", 3)
+		switch p[0] {
+		case "scalar":
+			s.Types = append(s.Types, &TypeDef{Kind: "scalar", Name: p[1]})
+		case "enum":
+			td := &TypeDef{Kind: "enum", Name: p[1]}
+			for _, v := range strings.Split(p[2], ",") {
+				if strings.HasSuffix(v, "!") {
+					td.Values = append(td.Values, EnumVal{v[:len(v)-1], true})
+				} else {
+					td.Values = append(td.Values, EnumVal{v, false})
+				}
+			}
+			s.Types = append(s.Types, td)
+		case "input":
+			td := &TypeDef{Kind: "input", Name: strings.TrimSuffix(p[1], "@oneOf"), OneOf: strings.HasSuffix(p[1], "@oneOf")}
+			for _, fs := range splitTop(p[2], ',') {
+				n, t, d := parseFieldSpec(fs)
+				td.Fields = append(td.Fields, Field{n, t, d})
+			}
+			s.Types = append(s.Types, td)
+		default:
+			return nil, fmt.Errorf("type token %q", tok)
+		}
+	}
+	var vars []VarDef
+	for _, tok := range strings.Fields(secs[1]) {
+		n, t, d := parseFieldSpec(tok)
+		vars = append(vars, VarDef{n, t, d})
+	}
+	j, ok := parseJSON(strings.TrimSpace(secs[2]))
+	if !ok {
+		return nil, fmt.Errorf("bad json")
+	}
+	return &caseT{schema: s, vars: vars, json: j, note: "corpus"}, nil
+}
+
+func runCorpus(in string, out *common.Out) {
+	f, err := os.Open(in)
+	if err != nil {
+		fmt.Fprintln(os.Stderr, err)
+		os.Exit(2)
+	}
+	defer f.Close()
+	sc := bufio.NewScanner(f)
+	sc.Buffer(make([]byte, 1<<20), 1<<24)
+	cache := map[string]*graphql.Schema{}
+	for sc.Scan() {
+		line := strings.TrimSpace(sc.Text())
+		if line == "" || strings.HasPrefix(line, "#") {
+			continue
+		}
+		c, err := parseCorpusLine(line)
+		if err != nil {
+			fmt.Fprintln(os.Stderr, "corpus line:", err, line)
+			os.Exit(2)
+		}
+		l, why := runCase(c, cache)
+		if l == "" {
+			fmt.Fprintln(os.Stderr, "corpus case did not reach the variables stage:", why)
+			os.Exit(2)
+		}
+		out.Line(l)
+	}
+}
+
 func main() {
-	if len(os.Args) > 1 && os.Args[1] == "exp" {
+	if len(os.Args) < 2 {
+		fmt.Fprintln(os.Stderr, "usage: c06 gen -seed S -n N -out F | corpus -in F -out F | exp SDL OP VARS")
+		os.Exit(2)
+	}
+	switch os.Args[1] {
+	case "exp":
 		schema, err := graphql.NewSchemaFromString(os.Args[2])
 		if err != nil {
 			fmt.Println("schema error:", err)
@@ -75,6 +1464,19 @@ func main() {
 		}
 		r := pipeline(schema, os.Args[3], os.Args[4], false)
 		fmt.Printf("stage=%q msg=%q vars=%s\n", r.stage, r.msg, r.vars)
-		return
+		ok, msg := direct(schema, os.Args[3], os.Args[4], true)
+		fmt.Printf("direct ok=%v msg=%q\n", ok, msg)
+	case "gen":
+		a := common.Args(os.Args[2:])
+		out := common.NewOut(a["out"])
+		genAll(common.ArgU64(a, "seed", 1), common.ArgInt(a, "n", 100), out)
+		out.Close()
+	case "corpus":
+		a := common.Args(os.Args[2:])
+		out := common.NewOut(a["out"])
+		runCorpus(a["in"], out)
+		out.Close()
+	default:
+		os.Exit(2)
 	}
 }
